@@ -68,6 +68,8 @@ def side_condition(A, g, cls, scope_reach):
     writes = A.written_anywhere(g, scope_reach)
     mod = A.mods[g[0]]
     if cls == 'accumulator':
+        if any(kind == 'mutate' for (k, ln, kind, rhs) in writes):
+            return "mutated in place"
         # every read of g inside the scope is the implicit read of an augmented self-assignment
         aug_lines = set((k, ln) for (k, ln, kind, rhs) in writes if kind == 'aug')
         for (k, ln) in A.read_sites.get(g, ()):
@@ -80,6 +82,10 @@ def side_condition(A, g, cls, scope_reach):
                 pass
         return None
     if cls == 'write-only':
+        # mutators that also hand back information about the old state are reads
+        for (k, ln, kind, rhs) in writes:
+            if kind == 'mutate' and rhs in ('pop', 'next', 'popitem', 'setdefault', 'send', '__next__', 'popleft', 'seek'):
+                return "%s at %s:%d returns part of the old state" % (rhs, k[1], ln)
         mut_lines = set((k, ln) for (k, ln, kind, rhs) in writes)
         for (k, ln) in A.read_sites.get(g, ()):
             if k in scope_reach and (k, ln) not in mut_lines:
@@ -150,17 +156,23 @@ class FrameAnalysis(NativeCase):
             nonconst = sorted(g for g in rbw if A.written_anywhere(g, scope_reach))
             self.ob('analysis-covers-the-entry', len(reach) > 1 or e[1] == 'generate_statistics_info', inputs=dict(entry=list(e), reachable=len(reach)))
             for g in nonconst:
-                rev = REVIEWED.get(g)
                 inp = dict(entry="%s.%s" % e, global_="%s.%s" % g,
                            write_sites=[(s[0][1], s[1], s[2], s[3][:60]) for s in A.written_anywhere(g, scope_reach)][:6])
-                if rev is None:
-                    self.ob('read-before-write global is a reviewed class', False, inputs=inp,
-                            info="module global %s.%s may be read before it is written on a path from %s and is written between blocks; "
-                                 "it is not in the reviewed table" % (g[0], g[1], e[1]))
-                    continue
-                why = side_condition(A, g, rev[0], scope_reach)
-                self.ob('read-before-write global is a reviewed class', True, inputs=inp)
-                self.ob('side-condition(%s)' % rev[0], why is None, inputs=inp, info=why)
+                # the class is decided by its side condition (not by the name of the global, so renaming is harmless)
+                reasons = {}
+                cls = None
+                for c in ('accumulator', 'write-only', 'idempotent-constant', 'option-mirror'):
+                    why = side_condition(A, g, c, scope_reach)
+                    if why is None:
+                        cls = c
+                        break
+                    reasons[c] = why
+                inp['class'] = cls
+                inp['reviewed_as'] = (REVIEWED.get(g) or ('-', ''))[0]
+                self.ob('every global read before written is an accumulator, write-only, an idempotent constant or an option mirror',
+                        cls is not None, inputs=inp,
+                        info="module global %s.%s may be read before it is written on a path from %s and is written between blocks; "
+                             "no class applies: %s" % (g[0], g[1], e[1], reasons))
             self.ob('constants-and-reinitialised-globals', True, inputs=dict(entry="%s.%s" % e, read_before_write=len(rbw),
                                                                               never_written_between_blocks=len(rbw) - len(nonconst)))
         bad = mutable_default_mutations(A, scope_reach)
